@@ -146,8 +146,8 @@ func raceSig(rep string) (string, bool) {
 		site := ""
 		for j := i + 1; j+1 < len(lines) && strings.HasPrefix(lines[j], "  ") && !strings.HasPrefix(lines[j], "   "); j += 2 {
 			fn, file := strings.TrimSpace(lines[j]), strings.TrimSpace(lines[j+1])
-			if strings.HasPrefix(fn, "runtime.") || strings.HasPrefix(fn, "sync.") || strings.HasPrefix(fn, "sync/atomic.") {
-				continue
+			if raceStdlib(fn) {
+				continue // the access site is the innermost frame outside the standard library
 			}
 			if strings.Contains(file, "/zzverif/") {
 				ok = false // the engine's own bookkeeping seen through a runtime helper (map, slice growth)
@@ -173,4 +173,17 @@ func raceSig(rep string) (string, bool) {
 	sites = sites[:2]
 	sort.Strings(sites)
 	return strings.Join(sites, " / "), ok
+}
+
+// raceStdlib: the function belongs to the standard library (its import path's first element has no dot).
+//
+//go:norace
+func raceStdlib(fn string) bool {
+	first := fn
+	if k := strings.IndexByte(first, '/'); k >= 0 {
+		first = first[:k]
+	} else if k := strings.IndexByte(first, '.'); k >= 0 {
+		first = first[:k]
+	}
+	return !strings.Contains(first, ".")
 }
